@@ -1335,9 +1335,254 @@ impl<'r> Sh<'r> {
     }
 }
 
+impl<'r> Sh<'r> {
+    /// The line that fails is the header line of a block: the condition of IF / ELSEIF /
+    /// WHILE / DO / LOOP, the expression of a CASE line. "RESUME re-executes that
+    /// statement" (the line is evaluated again, after the handler has repaired the
+    /// cause), "RESUME NEXT continues with the statement after it" (the first statement
+    /// of the line's body; the statement after the loop for a LOOP line). Drawn: which
+    /// line, the handler's way out, an enclosing FOR loop, a GOSUB routine, a second
+    /// block of another kind afterwards; in a subprogram only ways out that need no repair.
+    fn failing_header_shape(&mut self) -> Scenario {
+        let mut main: Vec<Stmt> = vec![self.trace(&[])];
+        let mode = self.rng.below(5); // 0 RESUME+repair, 1 RESUME NEXT, 2 ON ERROR RESUME NEXT, 3 none, 4 RESUME label
+        let in_sub = mode != 0 && self.rng.chance(1, 4);
+        let quot = |n: i32| Expr::Quot(Box::new(Expr::Int(n)));
+        let cmp = |a: Expr, n: i32| Expr::Cmp(CmpOp::Eq, Box::new(a), Box::new(Expr::Int(n)));
+        let mut blocks: Vec<Stmt> = vec![];
+        let n_blocks = 1 + self.rng.below(2);
+        for _ in 0..n_blocks {
+            let truth = self.rng.chance(1, 2);
+            // the value of the failing expression once it is repaired: 6
+            let want = if truth { 6 } else { 7 };
+            let coin = self.rng.chance(1, 2);
+            let b = match self.rng.below(8) {
+                0 => {
+                    let then_b = vec![self.trace(&["G1%"]), self.trace(&[])];
+                    let else_b = vec![self.trace(&[])];
+                    self.st(StmtKind::If {
+                        cond: cmp(quot(6), want),
+                        then_b,
+                        elseifs: vec![],
+                        else_b: if coin { Some(else_b) } else { None },
+                    })
+                }
+                1 => {
+                    let then_b = vec![self.trace(&[])];
+                    let b2 = vec![self.trace(&["G2%"]), self.trace(&[])];
+                    let b3 = vec![self.trace(&[])];
+                    let else_b = vec![self.trace(&[])];
+                    let first_fails = self.rng.chance(1, 2);
+                    let (c2, c3) = if first_fails {
+                        (cmp(quot(6), want), cmp(Expr::Var("G1%".into()), 0))
+                    } else {
+                        (cmp(Expr::Var("G1%".into()), 55), cmp(quot(6), want))
+                    };
+                    self.st(StmtKind::If {
+                        cond: cmp(Expr::Var("G1%".into()), 99),
+                        then_b,
+                        elseifs: vec![(c2, b2), (c3, b3)],
+                        else_b: if coin { Some(else_b) } else { None },
+                    })
+                }
+                2 => {
+                    let t = self.trace(&["G1%"]);
+                    let e = self.trace(&[]);
+                    self.st(StmtKind::IfLine {
+                        cond: cmp(quot(6), want),
+                        then_s: Box::new(t),
+                        else_s: if coin { Some(Box::new(e)) } else { None },
+                    })
+                }
+                3 => {
+                    // WHILE: the body runs while W4% < 2 and the failing expression is 6
+                    let bump = self.st(StmtKind::Assign {
+                        var: "W4%".into(),
+                        expr: Expr::Add(Box::new(Expr::Var("W4%".into())), Box::new(Expr::Int(1))),
+                    });
+                    // (without a handler that repairs the cause, the body does: the line is
+                    // evaluated again at the end of every pass)
+                    let repair = self.st(StmtKind::Assign {
+                        var: "DZ%".into(),
+                        expr: Expr::Int(1),
+                    });
+                    let body = vec![repair, self.trace(&["W4%"]), bump];
+                    let reset = self.st(StmtKind::Assign {
+                        var: "W4%".into(),
+                        expr: Expr::Int(0),
+                    });
+                    blocks.push(reset);
+                    self.st(StmtKind::While {
+                        cond: cmp(
+                            Expr::Add(Box::new(quot(6)), Box::new(Expr::Var("W4%".into()))),
+                            6 + if truth { 0 } else { 1 },
+                        ),
+                        body,
+                    })
+                }
+                4 | 5 => {
+                    let top = self.rng.chance(1, 2);
+                    let until = self.rng.chance(1, 2);
+                    let bump = self.st(StmtKind::Assign {
+                        var: "W5%".into(),
+                        expr: Expr::Add(Box::new(Expr::Var("W5%".into())), Box::new(Expr::Int(1))),
+                    });
+                    let repair = self.st(StmtKind::Assign {
+                        var: "DZ%".into(),
+                        expr: Expr::Int(1),
+                    });
+                    let mut body = vec![self.trace(&["W5%"]), bump];
+                    if top {
+                        body.insert(0, repair);
+                    }
+                    let reset = self.st(StmtKind::Assign {
+                        var: "W5%".into(),
+                        expr: Expr::Int(0),
+                    });
+                    blocks.push(reset);
+                    // (6 / DZ%) + W5%: WHILE ... < 8 runs for W5% = 0, 1; UNTIL ... >= 8 likewise
+                    let sum = Expr::Add(Box::new(quot(6)), Box::new(Expr::Var("W5%".into())));
+                    let cond = if until {
+                        Expr::Cmp(CmpOp::Ge, Box::new(sum), Box::new(Expr::Int(8)))
+                    } else {
+                        Expr::Cmp(CmpOp::Lt, Box::new(sum), Box::new(Expr::Int(8)))
+                    };
+                    self.st(StmtKind::Do {
+                        top,
+                        until,
+                        cond,
+                        body,
+                    })
+                }
+                _ => {
+                    let c1 = vec![self.trace(&[])];
+                    let c2 = vec![self.trace(&["G1%"]), self.trace(&[])];
+                    let c3 = vec![self.trace(&[])];
+                    let ce = vec![self.trace(&[])];
+                    let spec = match self.rng.below(4) {
+                        0 => vec![CaseSpec::Simple(quot(6))],
+                        1 => vec![CaseSpec::Is(CmpOp::Ge, quot(6))],
+                        2 => vec![CaseSpec::Range(quot(6), Expr::Int(9))],
+                        _ => vec![
+                            CaseSpec::Simple(Expr::Int(2)),
+                            CaseSpec::Simple(quot(6)),
+                            CaseSpec::Simple(Expr::Int(8)),
+                        ],
+                    };
+                    let first = self.rng.chance(1, 3);
+                    let cases = if first {
+                        vec![(spec, c2), (vec![CaseSpec::Simple(Expr::Int(want))], c3)]
+                    } else {
+                        vec![
+                            (vec![CaseSpec::Simple(Expr::Int(1))], c1),
+                            (spec, c2),
+                            (vec![CaseSpec::Simple(Expr::Int(want))], c3),
+                        ]
+                    };
+                    self.st(StmtKind::Select {
+                        expr: Expr::Int(want),
+                        cases,
+                        else_b: if coin { Some(ce) } else { None },
+                    })
+                }
+            };
+            blocks.push(b);
+            blocks.push(self.trace(&["G3%"]));
+            {
+                // the cause comes back for the next block
+                blocks.push(self.st(StmtKind::Assign {
+                    var: "DZ%".into(),
+                    expr: Expr::Int(0),
+                }));
+            }
+        }
+        if mode == 4 {
+            blocks.push(self.st(StmtKind::Label("RL1".into())));
+            blocks.push(self.trace(&["G3%"]));
+        }
+        // optionally inside a FOR loop whose bounds must survive the recoveries
+        if self.rng.chance(1, 3) && mode != 4 {
+            blocks = vec![self.for_loop("W1%", blocks)];
+        }
+        let arm = match mode {
+            0 | 1 | 4 => Some(self.st(StmtKind::OnErrorGoto("H1".into()))),
+            2 => Some(self.st(StmtKind::OnErrorResumeNext)),
+            _ => None,
+        };
+        let mut procs = vec![];
+        let mut gosub_body = vec![];
+        if let Some(a) = arm {
+            main.push(a);
+        }
+        if in_sub {
+            let mut body = vec![self.trace(&["P1%"])];
+            body.extend(blocks);
+            body.push(self.trace(&[]));
+            procs.push(Proc {
+                name: "S1".into(),
+                is_function: false,
+                params: vec!["P1%".into()],
+                body,
+                is_static: false,
+            });
+            main.push(self.st(StmtKind::CallSub {
+                name: "S1".into(),
+                args: vec![Expr::Int(3)],
+            }));
+        } else if self.rng.chance(1, 4) && mode != 4 {
+            main.push(self.st(StmtKind::Gosub("GB1".into())));
+            gosub_body.push(self.st(StmtKind::Label("GB1".into())));
+            gosub_body.extend(blocks);
+            gosub_body.push(self.st(StmtKind::Return(None)));
+        } else {
+            main.extend(blocks);
+        }
+        main.push(self.trace(&["G3%"]));
+        main.push(self.st(StmtKind::End));
+        main.extend(gosub_body);
+        if matches!(mode, 0 | 1 | 4) {
+            main.push(self.st(StmtKind::Label("H1".into())));
+            main.push(self.st(StmtKind::Print {
+                dev: Dev::Screen,
+                items: vec![
+                    PItem::E(Expr::Str("H".into())),
+                    PItem::Semi,
+                    PItem::E(Expr::Err),
+                    PItem::Semi,
+                    PItem::E(Expr::Var("G3%".into())),
+                ],
+                using: None,
+            }));
+            main.push(self.st(StmtKind::Assign {
+                var: "G3%".into(),
+                expr: Expr::Add(Box::new(Expr::Var("G3%".into())), Box::new(Expr::Int(1))),
+            }));
+            match mode {
+                0 => {
+                    main.push(self.st(StmtKind::Assign {
+                        var: "DZ%".into(),
+                        expr: Expr::Int(1),
+                    }));
+                    main.push(self.st(StmtKind::Resume(ResumeKind::Bare)));
+                }
+                1 => main.push(self.st(StmtKind::Resume(ResumeKind::Next))),
+                _ => main.push(self.st(StmtKind::Resume(ResumeKind::Label("RL1".into())))),
+            }
+        }
+        Scenario {
+            main,
+            procs,
+            stdin: vec![],
+        }
+    }
+}
+
 pub fn gen_resume_shapes(rng: &mut Rng) -> Scenario {
-    let shape = rng.below(4);
+    let shape = rng.below(6);
     let mut g = Sh { rng, next: 0, t: 0 };
+    if shape >= 4 {
+        return g.failing_header_shape();
+    }
     if shape == 2 {
         return g.return_cast_shape();
     }
